@@ -263,8 +263,8 @@ def conditional_compilation(rep):
                 continue
             if m.group(3) is not None and body == 'test':
                 continue
-            if m.group(1) is not None and re.match(r'^[^,]*,doc\b', body):
-                continue        # documentation-only attribute
+            if m.group(1) is not None and re.match(r'^(?:[^,()]|\([^()]*(?:\([^()]*\)[^()]*)*\))*,(doc|allow|warn|deny|forbid|expect|must_use|inline|cold|deprecated|rustfmt::skip)\b', body):
+                continue        # documentation / lint / inlining attribute: no effect on what the code computes
             line = code[:m.start()].count('\n') + 1
             hits.append((os.path.relpath(path, REPO), line, m.group(0)[:60]))
     for f, line, what in hits:
